@@ -563,6 +563,10 @@ def mk_index(base: Term, idx: Term) -> Term:
                 return v
     if base[0] == "ite":
         return mk_ite(base[1], mk_index(base[2], idx), mk_index(base[3], idx))
+    if idx[0] == "elem" and idx[1] == base and base[0] in ("sym", "attr", "index"):
+        # `for k in d: ... d[k]` is the value bound by `for k, v in d.items()` (same loop, component 1)
+        items = ("call", base[1] + ".items", (), (), None) if base[0] == "sym" else ("call", ("attr", base, "items"), (), (), None)
+        return ("index", ("elem", items, idx[2]), ONE)
     return ("index", base, idx)
 
 
@@ -939,3 +943,14 @@ def show(t) -> str:
     if k == "accum":
         return show(t[1]) + " ++ [" + ", ".join(f"{show(i[2])} if {show(i[1])}" + ("*" if i[3] else "") for i in t[2]) + "]"
     return "<" + " ".join(show(x) if isinstance(x, tuple) else repr(x) for x in t) + ">"
+
+
+def dict_value(x: Term, of: str = None):
+    """If x is the value bound by iterating a dict (canonical form index(elem(<d>.items()), 1)), return the `.items()` call
+    (optionally only for the dict named `of`), else None."""
+    if x[0] == "index" and x[1][0] == "elem" and const_value(x[2]) == 1:
+        it = x[1][1]
+        if it[0] == "call" and not it[2] and ((isinstance(it[1], str) and it[1].endswith(".items")) or (isinstance(it[1], tuple) and it[1][0] == "attr" and it[1][2] == "items")):
+            if of is None or it[1] == of + ".items":
+                return it
+    return None
